@@ -22,6 +22,7 @@ FunDep(obs) == \A a \in 1..Len(obs) : \A b \in 1..Len(obs) :
 CheckExplicit(r) == (\A j \in 1..Len(r.tiles_ok) : r.tiles_ok[j]) =>
     /\ FunDep(r.obs)                                  \* equal coordinate + equal parameters => equal decoded value, whatever the tile / method
     /\ r.worst_grid_u <= r.allow_u                    \* on the grid origin + k*range/(2^bits-1) of the CALLER's parameters
+    /\ r.params_exact                                 \* the grid a decoder dequantises with IS the caller's: origin, range and bits are stored bit for bit
 CONSTANT Clause
 Check(r) == CASE r.e = "Quant" -> CheckQuant(r)
               [] r.e = "Normal" -> IF Clause = "tiny" THEN CheckNormalTiny(r) ELSE CheckNormal(r)
